@@ -1,6 +1,7 @@
 SPECIFICATION MCSpec
 CONSTANTS
   OrderBy = "zip"
+  Chain = "first"
   Decode = "path"
   Packages = {}
   K = 3
